@@ -10,3 +10,8 @@ package host
 //@   modifies nothing
 //@   ensures @members-non-nil forall k int :: 0 <= k && k < len(result) ==> result[k] != nil
 //@   assume @ret forall k int :: 0 <= k && k < len(result) ==> result[k] != nil
+
+//@ func (*Set).Random
+//@   prop C03 C15
+//@   requires set != nil
+//@   modifies nothing
